@@ -12,8 +12,11 @@ MODULES = ['Netpoll.Props.C16']
 MANIFEST = dict(
     text='Lean 4 theorems: for every source/sink script and every sequence of Reader/Writer calls the adapter model (zcReader, zcWriter, ioReader, ioWriter over the C01 spec queue) '
          'delivers exactly the source stream once and in order, surfaces the source error, and hands the sink exactly the flushed stream across Flushes. '
-         'The model is tied to nocopy_readwriter.go by a differential run on scripted io.Reader/io.Writer behaviours (short, zero-byte, negative, data+error, short writes); '
-         'a stream oracle judges the replies of all four adapters (zcReader, zcWriter, NewIOReader / NewIOWriter over a LinkBuffer, NewIOWriter over NewWriter over a short-writing sink). '
+         'The reader model has the two loops of the code (waitRead re-arming a fill that makes at most maxReadCycle source reads, the bound regenerated from the source); a theorem shows the bound is invisible to the caller for every script. '
+         'The model is tied to nocopy_readwriter.go by a differential run on scripted io.Reader/io.Writer behaviours (short, zero-byte, negative, data+error, short writes; one reader sequence in five over a trickling source: '
+         'runs of 0..3-byte reads and zero-byte bursts longer than one fill); '
+         'a stream oracle judges the replies of all four adapters (zcReader, zcWriter, NewIOReader / NewIOWriter over a LinkBuffer, NewIOWriter over NewWriter over a short-writing sink); for the reader it also demands that a call with a valid count '
+         'fails only with the error (io.EOF as ErrEOF) of the last source read made during that call - never with the buffer\'s own error while the source has not erred. '
          'The caller of an io.Writer reuses (overwrites) its slice as soon as Write has returned, as the io.Writer contract allows; every zero-copy result of the reader adapter is kept and re-compared after every later call '
          'until Release, with the harness allocator poisoning freed blocks (long streams read piecewise with rare Release included).',
     note='Rests on the C01 refinement (LinkBuffer behaves as the spec queue inside Contract) and on its tie. Correspondence is sampling. '
@@ -208,7 +211,7 @@ def run(rep):
         for k, v in r['hist'].items(): hist[k] = hist.get(k, 0) + v
     rep.cov.update(evaluations=n, distinct_nontrivial=len(finals),
                    rule='one adapter per sequence (zcReader / zcWriter / ioReader / ioWriter over a LinkBuffer / ioWriter over zcWriter) behind a scripted source or sink (per-call counts 0..>4KB, negative, data with error, short writes; '
-                        'one reader sequence in four over a long stream with rare Release); the io.Writer caller overwrites its slice after every Write; zero-copy results of the reader are re-compared until Release (poisoning allocator); '
+                        'one reader sequence in four over a long stream with rare Release, one in five over a trickling source with more tiny / zero-byte reads than one fill makes); the io.Writer caller overwrites its slice after every Write; zero-copy results of the reader are re-compared until Release (poisoning allocator); '
                         'random Reader/Writer calls; every reply compared with the Lean adapter model and judged by a stream oracle; distinct_nontrivial = distinct final reply lines',
                    samples=results[0]['samples'], op_histogram=hist, traces_validated_against_impl=n)
     rep.assumptions += ['C01 refinement: inside Contract a LinkBuffer behaves as the spec queue (checked by ./check C01)',
